@@ -27,6 +27,12 @@ class WireManagerBase(abc.ABC):
         for wire in self.wires:
             wire.grading.length = wire.length
 
+    def reset(self) -> None:
+        """Forget the gradings of a previous run; grade() is repeated on every mesh.write()
+        and must start from the same state each time"""
+        for wire in self.wires:
+            wire.grading = Grading(wire.length)
+
     @abc.abstractmethod
     def grade(self) -> None:
         """Convert data from user or neighbour to Grading objects on wires"""
@@ -108,6 +114,10 @@ class WireChopManager(WireManagerBase):
 
         super().update()
 
+    def reset(self) -> None:
+        super().reset()
+        self.grading = Grading(0)
+
     def grade(self) -> None:
         # grade() runs on every mesh.write(): start from empty gradings
         # so that the same chops are not added a second time
@@ -141,6 +151,11 @@ class WirePropagateManager(WireManagerBase):
 
     def update(self):
         super().update()
+
+    def reset(self) -> None:
+        # chops of this manager are copies from neighbours, too
+        super().reset()
+        self.chops = []
 
     def grade(self):
         """Checks each wire whether their coincidents (wires from other blocks)
